@@ -864,6 +864,30 @@ fn boundary(q: &mut QueryOut, z: TimeZoneRef<'_>, picks: &[i64], out: &mut Strin
 
 // ------------------------------------------------------------------ running one operation
 
+/// Did the recorded panic start in the library's own source (as opposed to the harness or, ambiguously, std)?
+fn panic_in_library(p: &str) -> bool {
+    match p.rsplit_once(" @ ") {
+        // the library is a path dependency: its locations are absolute paths; the harness's are relative to its crate
+        Some((_, loc)) => loc.starts_with('/') && !loc.starts_with("/rustc/") && !loc.contains("/tzsim/") && !loc.contains("/.cargo/"),
+        None => false,
+    }
+}
+
+/// One operation; a panic of the library that escapes while the harness reads a result through the
+/// public getters or `Display` (outside the measured call) is a C07 violation, not a harness error.
+fn run_op_guarded<'c>(ctx: &'c Ctx<'c>, me: usize, st: &mut ActorState<'c>, opi: usize, op: &Op) {
+    if let Err(e) = catch_unwind(AssertUnwindSafe(|| run_op(ctx, me, st, opi, op))) {
+        alloc::set_forbid(false);
+        alloc::unpause();
+        let p = LAST_PANIC.with(|p| p.borrow().clone());
+        if panic_in_library(&p) {
+            push_violation(&ctx.armed, "C07.panic", "panic-reading-result", format!("op #{opi} {}: the library panicked while the result was being read through its public getters / Display: {p}", op.text()));
+        } else {
+            std::panic::resume_unwind(e);
+        }
+    }
+}
+
 fn push_violation(armed: &Armed, oracle: &str, sig: &str, detail: String) {
     let mut g = lock();
     if let Some(w) = g.as_mut() {
@@ -1549,7 +1573,7 @@ pub fn execute(sc: &Scenario, corpus: &mut Corpus, armed: Armed, opts: &ExecOpts
         let mut st = ActorState::new();
         if let Some(a) = sc.actors.first() {
             for (i, op) in a.ops.iter().enumerate() {
-                run_op(&ctx, 0, &mut st, i, op);
+                run_op_guarded(&ctx, 0, &mut st, i, op);
             }
         }
         last_canon = st.canon.clone();
@@ -1564,7 +1588,7 @@ pub fn execute(sc: &Scenario, corpus: &mut Corpus, armed: Armed, opts: &ExecOpts
                     wait_turn(ai);
                     for (i, op) in a.ops.iter().enumerate() {
                         yield_point(ai, "op");
-                        run_op(ctx, ai, &mut st, i, op);
+                        run_op_guarded(ctx, ai, &mut st, i, op);
                     }
                     // drop zones while still holding the baton (deterministic order of frees)
                     drop(st);
